@@ -94,7 +94,7 @@ Proof.
   destruct (send_data_loop _ c (st_id s) (get_snd s)) as [[[c1 n1] dn] wr]. exact L.
 Qed.
 
-Lemma tr_send_data c s : tr s (snd (fst (send_data c s))).
+Lemma tr_send_data k c s : tr k s (snd (fst (send_data c s))).
 Proof.
   unfold send_data. destruct (send_data_loop _ c (st_id s) (get_snd s)) as [[[c1 n1] dn] wr]. cbn [fst snd].
   destruct wr; [eapply tr_trans; [apply tr_set_snd | apply tr_set_weReset] | apply tr_set_snd].
@@ -109,7 +109,7 @@ Proof.
   eapply hsame_trans; [exact L1 | apply hsame_send_data].
 Qed.
 
-Lemma tr_finish_request c s r : tr s (snd (fst (finish_request enc_field c s r))).
+Lemma tr_finish_request k c s r : tr k s (snd (fst (finish_request enc_field c s r))).
 Proof.
   unfold finish_request. destruct (response_block enc_field (sc_enc c) r) as [blk e'].
   destruct (negb _); [apply tr_refl|]. cbn [fst snd].
@@ -118,32 +118,28 @@ Qed.
 
 (* ---------- working copies ---------- *)
 (* s is a working copy of the table stream with its id *)
-Definition wk c (s : stream) : Prop := exists s0, strms_search (sc_strms c) (st_id s) = Some s0 /\ tr s0 s.
+Definition wk (k : bool) c (s : stream) : Prop := exists s0, strms_search (sc_strms c) (st_id s) = Some s0 /\ tr k s0 s.
 
-Lemma wk_found c id s : strms_search (sc_strms c) id = Some s -> wk c s.
+Lemma wk_found k c id s : strms_search (sc_strms c) id = Some s -> wk k c s.
 Proof. intro H. exists s. destruct (strms_search_In _ _ _ H) as [_ E]. rewrite E. split; [assumption | apply tr_refl]. Qed.
-Lemma wk_hsame c c' s : hsame c c' -> wk c s -> wk c' s.
+Lemma wk_hsame k c c' s : hsame c c' -> wk k c s -> wk k c' s.
 Proof. intros (_ & _ & _ & _ & E & _) (s0 & H & T). exists s0. rewrite E. auto. Qed.
-Lemma wk_tr c s x : wk c s -> tr s x -> wk c x.
-Proof. intros (s0 & H & T) T2. exists s0. rewrite (tr_id _ _ T2). split; [assumption | eapply tr_trans; eassumption]. Qed.
+Lemma wk_tr k c s x : wk k c s -> tr k s x -> wk k c x.
+Proof. intros (s0 & H & T) T2. exists s0. rewrite (tr_id _ _ _ T2). split; [assumption | eapply tr_trans; eassumption]. Qed.
 
-Lemma hmvs_put k c x : wk c x -> hmvs k c (put c x).
+Lemma hmvs_put k c x : wk k c x -> hmvs k c (put c x).
 Proof. intros (s0 & H & T). apply hmvs_one. eapply hmv_put; eassumption. Qed.
 
-Lemma wk_put c x : wk c x -> strms_search (sc_strms (put c x)) (st_id x) = Some x.
+Lemma wk_put k c x : wk k c x -> strms_search (sc_strms (put c x)) (st_id x) = Some x.
 Proof. intros (s0 & H & _). rewrite sc_strms_put. eapply iso_search_put_same. exact H. Qed.
 
-(* the side condition of a close *)
-Definition close_ok (k : bool) (x : stream) : Prop :=
-  k = true -> st_headersFinished x = false -> st_weReset x = true \/ st_responded x = true.
-
-Lemma hmvs_put_close k c x : wk c x -> close_ok k x -> hmvs k c (close_stream (put c x) x).
+Lemma hmvs_put_close k c x : wk k c x -> close_ok k x -> hmvs k c (close_stream (put c x) x).
 Proof.
   intros W OK. eapply hmvs_trans; [apply hmvs_put; exact W|].
-  apply hmvs_one. eapply hm_close; [apply wk_put; exact W | apply tr_refl | exact OK].
+  apply hmvs_one. eapply hm_close; [eapply wk_put; exact W | apply tr_refl | exact OK].
 Qed.
 
-Lemma hmvs_put_maybe_close k c x : wk c x -> (st_state x = SClosed -> close_ok k x) ->
+Lemma hmvs_put_maybe_close k c x : wk k c x -> (st_state x = SClosed -> close_ok k x) ->
   hmvs k c (if sstate_eqb (st_state x) SClosed then close_stream (put c x) x else put c x).
 Proof.
   intros W OK. destruct (sstate_eqb (st_state x) SClosed) eqn:E; [|apply hmvs_put; exact W].
@@ -167,7 +163,7 @@ Proof.
     eapply hmvs_trans.
     + apply hmvs_one. apply hm_close with (s := s) (x := set_state s SClosed).
       * cbn [set_state st_id]. rewrite Ei. exact E.
-      * apply tr_set_state_closed.
+      * apply tr_set_state_closed. intros K _. right. apply (R K); [assumption | left; auto].
       * intros K _. right. cbn [set_state st_responded]. apply (R K); [assumption | left; auto].
     + apply IH. intro K. destruct (R K) as [ND Rs]. rewrite sc_strms_close_stream. split; [apply iso_del_NoDup; exact ND|].
       intros y Iy Ht. apply Rs; [eapply strms_del_In; eassumption | right; assumption].
@@ -181,10 +177,10 @@ Proof.
   destruct (strms_search (sc_strms c) id) as [s|] eqn:E; [|apply IH; exact R].
   destruct (st_responded s && negb (st_handlerRunning s) && has_more_to_send s)%bool eqn:Cnd; [|apply IH; exact R].
   apply andb_prop in Cnd. destruct Cnd as [Cnd _]. apply andb_prop in Cnd. destruct Cnd as [Rs _].
-  pose proof (hsame_send_data c s) as L. pose proof (tr_send_data c s) as T.
+  pose proof (hsame_send_data c s) as L. pose proof (tr_send_data k c s) as T.
   destruct (send_data c s) as [[c1 s1] fin]. cbn [fst snd] in *.
   destruct (strms_search_In _ _ _ E) as [Is Ei].
-  assert (W1 : wk c1 s1). { eapply wk_hsame; [exact L|]. eapply wk_tr; [eapply wk_found; exact E | exact T]. }
+  assert (W1 : wk k c1 s1). { eapply wk_hsame; [exact L|]. eapply wk_tr; [eapply wk_found; exact E | exact T]. }
   assert (R1 : st_responded s1 = true) by (destruct T as (_ & _ & T3 & _); auto).
   destruct (IH (put c1 s1) (if fin then done ++ [id] else done)) as [M Rn].
   - intro K. destruct (R K) as [ND Rd]. destruct L as (_ & _ & _ & _ & ES & _).
@@ -233,27 +229,27 @@ Qed.
 Definition inT c (s : stream) : Prop := exists s0, strms_search (sc_strms c) (st_id s) = Some s0.
 Lemma inT_hsame c c' s : hsame c c' -> inT c s -> inT c' s.
 Proof. intros H [s0 E]. exists s0. rewrite (hsame_strms _ _ H). exact E. Qed.
-Lemma wk_put_self c s : inT c s -> wk (put c s) s.
+Lemma wk_put_self k c s : inT c s -> wk k (put c s) s.
 Proof. intros [s0 E]. exists s. split; [rewrite sc_strms_put; eapply iso_search_put_same; exact E | apply tr_refl]. Qed.
-Lemma wk_inT c s : wk c s -> inT c s.
+Lemma wk_inT k c s : wk k c s -> inT c s.
 Proof. intros (s0 & E & _). exists s0. exact E. Qed.
 
 (* from "s has been written back" to "x (an evolution of s) has been written back (and closed)", the
    connection having gone from c to c2 meanwhile without touching the table *)
-Lemma hmvs_reput k c c2 s x : inT c s -> hsame c c2 -> tr s x -> hmvs k (put c s) (put c2 x).
+Lemma hmvs_reput k c c2 s x : inT c s -> hsame c c2 -> tr k s x -> hmvs k (put c s) (put c2 x).
 Proof.
   intros I H T. eapply hmvs_trans; [apply hmvs_same, hsame_put_lift; exact H|].
-  rewrite <- (put_put c2 s x) by (apply tr_id; exact T).
+  rewrite <- (put_put c2 s x) by (eapply tr_id; exact T).
   apply hmvs_put. eapply wk_tr; [apply wk_put_self; eapply inT_hsame; eassumption | exact T].
 Qed.
 
-Lemma hmvs_reput_maybe_close k c c2 s x : inT c s -> hsame c c2 -> tr s x -> (st_state x = SClosed -> close_ok k x) ->
+Lemma hmvs_reput_maybe_close k c c2 s x : inT c s -> hsame c c2 -> tr k s x -> (st_state x = SClosed -> close_ok k x) ->
   hmvs k (put c s) (if sstate_eqb (st_state x) SClosed then close_stream (put c2 x) x else put c2 x).
 Proof.
   intros I H T OK.
-  assert (W : wk (put c2 s) x) by (eapply wk_tr; [apply wk_put_self; eapply inT_hsame; eassumption | exact T]).
+  assert (W : wk k (put c2 s) x) by (eapply wk_tr; [apply wk_put_self; eapply inT_hsame; eassumption | exact T]).
   eapply hmvs_trans; [apply hmvs_same, hsame_put_lift; exact H|].
-  rewrite <- (put_put c2 s x) by (apply tr_id; exact T).
+  rewrite <- (put_put c2 s x) by (eapply tr_id; exact T).
   apply hmvs_put_maybe_close; assumption.
 Qed.
 
@@ -267,17 +263,13 @@ Lemma hmvs_after_frame k c s fr wc : inT c s -> (wc = true -> sc_closing c = tru
   hmvs k (put c s) (fst (after_frame cfg c s fr wc)).
 Proof.
   intros I WC OK. unfold after_frame.
-  pose proof (tr_handle_state fr s) as T1. set (s1 := handle_state fr s) in *.
+  pose proof (tr_handle_state k fr s OK) as T1. set (s1 := handle_state fr s) in *.
   assert (OK1 : st_state s1 = SClosed -> close_ok k s1).
-  { intros E K Hf. rewrite (tr_hf _ _ T1) in Hf. destruct (OK E K Hf) as [W|R]; [left | right].
-    - subst s1. unfold handle_state. destruct (fkind_eqb _ _); cbn [st_state set_state];
-      repeat match goal with
-             | |- context [match st_state ?x with _ => _ end] => destruct (st_state x)
-             | |- context [if ?b then _ else _] => destruct b
-             end; cbn [set_state st_weReset]; exact W.
-    - destruct T1 as (_ & _ & T3 & _). auto. }
+  { intros E K Hf. rewrite (tr_hf _ _ _ T1) in Hf. destruct (OK E K Hf) as [W|R]; [left | right].
+    - destruct T1 as (_ & _ & _ & _ & _ & T6 & _). auto.
+    - eapply tr_responded; eassumption. }
   clearbody s1.
-  assert (FIN : forall c2 x, hsame c c2 -> tr s x -> (st_state x = SClosed -> close_ok k x) ->
+  assert (FIN : forall c2 x, hsame c c2 -> tr k s x -> (st_state x = SClosed -> close_ok k x) ->
     hmvs k (put c s) (fst (let c3 := if sstate_eqb (st_state x) SClosed then close_stream (put c2 x) x else put c2 x in
                            if wc && can_close_after_goaway c3 then brk c3 else cont c3))).
   { intros c2 x H T OKx. cbv zeta. eapply hmvs_trans; [apply hmvs_reput_maybe_close; eassumption|].
@@ -290,7 +282,7 @@ Proof.
     + apply FIN.
       * apply hsame_write_reset.
       * eapply tr_trans; [exact T1|]. eapply tr_trans; [apply tr_respond; [exact Hf | rewrite Hst; cbn; lia]|].
-        eapply tr_trans; [apply tr_set_weReset | apply tr_set_state_closed].
+        apply tr_reset_closed.
       * intros _ _ _. left. reflexivity.
     + apply FIN.
       * apply hsame_note.
@@ -299,12 +291,12 @@ Proof.
       * cbn [set_flags st_state]. rewrite Hst. discriminate.
   - destruct (st_responded s1 && negb (st_handlerRunning s1) && has_more_to_send s1)%bool eqn:Snd.
     + apply andb_prop in Snd. destruct Snd as [Snd _]. apply andb_prop in Snd. destruct Snd as [Rs _].
-      pose proof (hsame_send_data c s1) as L. pose proof (tr_send_data c s1) as T.
+      pose proof (hsame_send_data c s1) as L. pose proof (tr_send_data k c s1) as T.
       destruct (send_data c s1) as [[c1 s2] fin]. cbn [fst snd] in *.
-      assert (R2 : st_responded s2 = true) by (destruct T as (_ & _ & T3 & _); auto).
+      assert (R2 : st_responded s2 = true) by (eapply tr_responded; eassumption).
       apply FIN.
       * exact L.
-      * eapply tr_trans; [exact T1|]. destruct fin; [eapply tr_trans; [exact T | apply tr_set_state_closed] | exact T].
+      * eapply tr_trans; [exact T1|]. destruct fin; [eapply tr_trans; [exact T | apply tr_set_state_closed; intros _ _; right; exact R2] | exact T].
       * intros _ _ _. right. destruct fin; [cbn [set_state st_responded]|]; exact R2.
     + apply FIN; [apply hsame_refl | exact T1 | exact OK1].
 Qed.
@@ -336,20 +328,23 @@ Lemma hmvs_ftail_rest k c3 s3 e fr wc : inT c3 s3 -> (wc = true -> sc_closing c3
   hmvs k (put c3 s3) (fst (ftail_rest c3 s3 e fr wc)).
 Proof.
   intros I WC OK NE. unfold ftail_rest. destruct e as [[code|code|]|].
-  - cbn [write_error]. rewrite (NE code eq_refl). cbn [negb].
-    eapply hmvs_trans; [apply hmvs_one; apply hm_goaway with (sid := st_id s3) (code := code)|].
-    rewrite write_goaway_put.
-    eapply hmvs_trans.
-    + apply (hmvs_reput k (write_goaway c3 (st_id s3) code) (write_goaway c3 (st_id s3) code) s3
-               (set_state (set_state s3 SClosed) SClosed)).
-      * destruct I as [s0 E]. exists s0. sc_rw. exact E.
-      * apply hsame_refl.
-      * eapply tr_trans; apply tr_set_state_closed.
-    + apply hmvs_one, hm_brk. sc_rw. apply sc_closing_write_goaway.
+  - (* a connection error: GOAWAY, the loop ends; the table is not read any more *)
+    cbn [write_error]. rewrite (NE code eq_refl). cbn [negb].
+    apply hmvs_one, hm_fatal.
+    + unfold brk, note, put. sc_cbn. sc_rw. reflexivity.
+    + unfold base, oext, brk, note, put. sc_cbn. sc_rw. repeat split; try reflexivity.
+      rewrite sc_out_write_goaway. destruct (sc_wl_dead c3); [exists [OExit 1 0]; reflexivity|].
+      destruct (sc_sl_done c3); eexists [_; _]; reflexivity.
+    + reflexivity.
+    + right. unfold brk, note, put. sc_cbn. sc_rw. split; [apply sc_closing_write_goaway|].
+      intro W. rewrite gcount_cons. cbn [conn_err_out].
+      pose proof (gcount_write_goaway _ c3 (st_id s3) code W) as G. lia.
+    + intro W. unfold brk, note, put. sc_cbn. rewrite gcount_cons. cbn [conn_err_out].
+      pose proof (gcount_write_goaway _ c3 (st_id s3) code W) as G. lia.
   - cbn [write_error].
     eapply hmvs_trans; [|apply hmvs_after_frame].
     + apply hmvs_reput; [exact I | apply hsame_write_reset|].
-      eapply tr_trans; [apply tr_set_weReset|]. eapply tr_trans; apply tr_set_state_closed.
+      eapply tr_trans; [apply tr_reset_closed|]. apply tr_set_state_closed. intros _ _. left. reflexivity.
     + destruct I as [s0 E]. exists s0. sc_rw. exact E.
     + sc_rw. exact WC.
     + intros _ _ _. left. reflexivity.
@@ -381,8 +376,8 @@ Proof.
   split; [|split].
   - eapply hmvs_trans; [|eapply hmvs_trans; [apply hmvs_same, hsame_write_reset | exact M]].
     apply hmvs_one. apply hm_close with (s := n).
-    + rewrite E. apply head_search.
-    + eapply tr_trans; [apply tr_set_weReset | apply tr_set_state_closed].
+    + rewrite E. exact (head_search n t).
+    + apply tr_reset_closed.
     + intros _ _. left. reflexivity.
   - intros id Hid. rewrite S by exact Hid. rewrite sc_strms_write_reset, sc_strms_close_stream, E.
     apply iso_search_del_other. cbn [x set_state set_weReset st_id]. lia.
@@ -396,8 +391,8 @@ Proof.
   eapply hmvs_trans; [apply hmvs_same, (hsame_write_reset c (st_id s) c_StreamCanceled)|].
   eapply hmvs_trans; [|apply IH].
   apply hmvs_one. apply hm_close with (s := s).
-  - rewrite sc_strms_write_reset, E. apply head_search.
-  - eapply tr_trans; [apply tr_set_weReset | apply tr_set_state_closed].
+  - rewrite sc_strms_write_reset, E. exact (head_search s t).
+  - apply tr_reset_closed.
   - intros _ _. left. reflexivity.
 Qed.
 
@@ -415,15 +410,17 @@ Proof.
   destruct (strms_search (sc_strms c) sid) as [s|] eqn:E; [|constructor].
   destruct (st_handlerRunning s) eqn:Run; cbn [negb]; [|constructor].
   set (s1 := set_flags s (st_responded s) false (st_abandoned s)).
-  pose proof (hsame_finish_request c s1 r) as L. pose proof (tr_finish_request c s1 r) as T.
+  pose proof (hsame_finish_request c s1 r) as L. pose proof (tr_finish_request k c s1 r) as T.
   destruct (finish_request enc_field c s1 r) as [[c1 s2] fin]. cbn [fst snd] in *.
-  assert (T2 : tr s s2) by (eapply tr_trans; [apply tr_done_flags | exact T]).
-  assert (W : wk c s) by (eapply wk_found; exact E).
+  assert (T2 : tr k s s2) by (eapply tr_trans; [apply tr_done_flags | exact T]).
+  assert (W : wk k c s) by (eapply wk_found; exact E).
   assert (M : hmvs k c (if fin then close_stream (put c1 (set_state s2 SClosed)) (set_state s2 SClosed) else put c1 s2)).
   { eapply hmvs_trans; [apply hmvs_same; exact L|]. destruct fin.
-    - apply hmvs_put_close.
-      + eapply wk_hsame; [exact L|]. eapply wk_tr; [exact W|]. eapply tr_trans; [exact T2 | apply tr_set_state_closed].
-      + intros K _. right. cbn [set_state st_responded]. destruct T2 as (_ & _ & T3 & _). apply T3. apply (PRE K s); auto.
+    - assert (OKc : close_ok k s2).
+      { intros K _. right. eapply tr_responded; [exact T2|]. apply (PRE K s); auto. }
+      apply hmvs_put_close.
+      + eapply wk_hsame; [exact L|]. eapply wk_tr; [exact W|]. eapply tr_trans; [exact T2 | apply tr_set_state_closed; exact OKc].
+      + intros K Hf. destruct (OKc K Hf) as [Wr|Rs]; [left | right]; assumption.
     - apply hmvs_put. eapply wk_hsame; [exact L|]. eapply wk_tr; eassumption. }
   set (c2 := if fin then _ else _) in *. clearbody c2.
   eapply hmvs_trans; [exact M|]. apply hmvs_brk_if. intro B. apply andb_prop in B. tauto.
@@ -432,12 +429,12 @@ Qed.
 (* ---------- handle_frame on anything but HEADERS / CONTINUATION ---------- *)
 Definition is_hdr_kind (k : fkind) : bool := fkind_eqb k KHeaders || fkind_eqb k KCont.
 
-Lemma handle_frame_other c s fr : is_hdr_kind (sf_kind fr) = false ->
-  hsame c (fst (fst (handle_frame dec_field cfg c s fr))) /\ tr s (snd (fst (handle_frame dec_field cfg c s fr))) /\ (forall code, snd (handle_frame dec_field cfg c s fr) = Some (EGoAway code) -> (code =? c_NoError) = false) /\ snd (handle_frame dec_field cfg c s fr) <> Some EPanic.
+Lemma handle_frame_other k c s fr : is_hdr_kind (sf_kind fr) = false ->
+  hsame c (fst (fst (handle_frame dec_field cfg c s fr))) /\ tr k s (snd (fst (handle_frame dec_field cfg c s fr))) /\ (forall code, snd (handle_frame dec_field cfg c s fr) = Some (EGoAway code) -> (code =? c_NoError) = false) /\ snd (handle_frame dec_field cfg c s fr) <> Some EPanic.
 Proof.
   intro NK. unfold handle_frame.
   destruct (verify_state s fr) as [e|] eqn:V.
-  { cbn [fst snd]. repeat split; [apply hsame_refl | apply tr_refl | |].
+  { cbn [fst snd]. split; [apply hsame_refl|]. split; [apply tr_refl|]. split.
     - intros code Ec. inversion Ec; subst. unfold verify_state in V.
       destruct (st_state s); try discriminate;
       repeat match type of V with context [if ?b then _ else _] => destruct b end; inversion V; reflexivity.
@@ -472,21 +469,135 @@ Definition fwork (c1 : sconn) (s : stream) (fr : sframe) (wasClosing : bool) : s
   | inr c2 => ftail c2 s fr wasClosing
   end.
 
-Lemma hmvs_ftail_other k c s fr wc : is_hdr_kind (sf_kind fr) = false -> wk c s -> (wc = true -> sc_closing c = true) ->
+Lemma hmvs_ftail_other k c s fr wc : is_hdr_kind (sf_kind fr) = false -> wk k c s -> (wc = true -> sc_closing c = true) ->
   (k = true -> st_headersFinished s = true) ->
   hmvs k c (fst (ftail c s fr wc)).
 Proof.
   intros NK W WC HF. unfold ftail.
-  destruct (handle_frame_other c s fr NK) as (L & T & NE & NP).
+  destruct (handle_frame_other k c s fr NK) as (L & T & NE & NP).
   destruct (handle_frame dec_field cfg c s fr) as [[c3 s3] e]. cbn [fst snd] in *.
-  assert (W3 : wk c3 s3) by (eapply wk_hsame; [exact L|]; eapply wk_tr; eassumption).
+  assert (W3 : wk k c3 s3) by (eapply wk_hsame; [exact L|]; eapply wk_tr; eassumption).
   eapply hmvs_trans; [apply hmvs_same; exact L|].
   eapply hmvs_trans; [apply hmvs_put; exact W3|].
   apply hmvs_ftail_rest.
-  - apply wk_inT. exact W3.
+  - eapply wk_inT. exact W3.
   - rewrite (hsame_closing _ _ L). exact WC.
-  - intros _ _ K Hf. rewrite (tr_hf _ _ T), (HF K) in Hf. discriminate.
+  - intros _ _ K Hf. rewrite (tr_hf _ _ _ T), (HF K) in Hf. discriminate.
   - intros code Ec. apply NE. exact Ec.
 Qed.
 
+(* ---------- sl_frame on anything but a header-block fragment ---------- *)
+Definition is_hdr_frame (fr : sframe) : bool := negb (sf_sid fr =? 0) && is_hdr_kind (sf_kind fr).
+
+Lemma bumpall_tr k (delta : Z) : forall l pre,
+  let r := (fix bumpall (pre : list stream) (l : list stream) {struct l} : list stream * bool :=
+          match l with
+          | [] => (pre, false)
+          | s :: t =>
+            let s' := set_window s (st_window s + delta) in
+            if (MAXWIN <? st_window s')%Z then (pre ++ s' :: t, true) else bumpall (pre ++ [s']) t
+          end) pre l in
+  exists l', fst r = pre ++ l' /\ Forall2 (tr k) l l'.
+Proof.
+  induction l as [|s t IH]; intros pre.
+  - exists []. rewrite app_nil_r. split; [reflexivity | constructor].
+  - cbv zeta. cbv zeta in IH.
+    destruct (MAXWIN <? st_window (set_window s (st_window s + delta)))%Z eqn:OV.
+    + exists (set_window s (st_window s + delta) :: t). cbn [fst]. split; [reflexivity|].
+      constructor; [apply tr_set_window | apply Forall2_tr_refl].
+    + destruct (IH (pre ++ [set_window s (st_window s + delta)])) as (l' & E & F2).
+      exists (set_window s (st_window s + delta) :: l'). split.
+      * etransitivity; [exact E|]. rewrite <- app_assoc. reflexivity.
+      * constructor; [apply tr_set_window | assumption].
+Qed.
+
+(* what the strict version needs to know: no header block is open *)
+Definition no_open_block (k : bool) c : Prop :=
+  k = true -> NoDup (map st_id (sc_strms c)) /\ (forall s, In s (sc_strms c) -> st_headersFinished s = true).
+
+Lemma hmvs_goaway_cont k c sid code : hmvs k c (fst (cont (write_goaway c sid code))).
+Proof. cbn [cont fst]. apply hmvs_one, hm_goaway. Qed.
+
+Theorem hmvs_sl_frame_other k c fr : is_hdr_frame fr = false -> no_open_block k c ->
+  hmvs k c (fst (sl_frame dec_field enc_set_max cfg c fr)).
+Proof.
+  intros NH PRE. unfold sl_frame. unfold is_hdr_frame in NH.
+  destruct (sf_sid fr =? 0) eqn:Z0.
+  { (* connection-level frames *)
+    destruct (sf_kind fr); try (cbn [cont fst]; constructor).
+    - (* SETTINGS *)
+      set (c0 := if sf_set_hastable fr then upd_enc c (enc_set_max (sc_enc c) (sf_set_table fr)) else c).
+      assert (L0 : hsame c c0) by (subst c0; destruct (sf_set_hastable fr); [apply hsame_upd_enc | apply hsame_refl]).
+      eapply hmvs_trans; [apply hmvs_same; exact L0|].
+      destruct (sf_set_haswin fr).
+      + cbv zeta.
+        match goal with |- context [let '(aa, bb) := ?B in _] =>
+          assert (BS : exists l', fst B = [] ++ l' /\ Forall2 (tr k) (sc_strms (upd_initWin c0 (signed 32 (sf_set_win fr)))) l')
+            by (apply (bumpall_tr k (signed 32 (sf_set_win fr) - sc_initWin c0)));
+          destruct B as [lB over] end.
+        destruct BS as (lq & E & F2). cbn [fst app] in E. subst lB.
+        set (c1 := upd_initWin c0 (signed 32 (sf_set_win fr))) in *.
+        eapply hmvs_trans; [apply hmvs_same, (hsame_upd_initWin c0 (signed 32 (sf_set_win fr)))|]. fold c1.
+        eapply hmvs_trans; [apply hmvs_one, (hm_map _ k c1 lq); exact F2|].
+        destruct over.
+        * eapply hmvs_trans; [apply hmvs_one; apply hm_goaway with (sid := 0) (code := c_FlowControlError)|].
+          apply hmvs_one, hm_brk. apply sc_closing_write_goaway.
+        * cbn [cont fst].
+          eapply hmvs_trans; [apply hmvs_same, (hsame_emit (upd_strms c1 lq) OSettingsAck)|].
+          apply hmvs_flush_streams. intro K. destruct (PRE K) as [ND _].
+          rewrite sc_strms_emit. sc_cbn. rewrite (Forall2_tr_ids _ _ _ F2). unfold c1. sc_cbn.
+          rewrite (hsame_strms _ _ L0). exact ND.
+      + cbn [cont fst]. apply hmvs_same, hsame_emit.
+    - (* WINDOW_UPDATE *)
+      eapply hmvs_trans; [apply hmvs_same, (hsame_upd_clientWindow c (sc_clientWindow c + Z.of_N (sf_inc fr)))|].
+      destruct (_ <? _)%Z.
+      + eapply hmvs_trans; [apply hmvs_one; apply hm_goaway with (sid := 0) (code := c_FlowControlError)|].
+        apply hmvs_one, hm_brk. apply sc_closing_write_goaway.
+      + cbn [cont fst]. apply hmvs_flush_streams. intro K. destruct (PRE K) as [ND _]. exact ND. }
+  cbn [negb andb] in NH.
+  assert (KH : fkind_eqb (sf_kind fr) KHeaders = false) by (unfold is_hdr_kind in NH; apply orb_false_elim in NH; tauto).
+  assert (KC : fkind_eqb (sf_kind fr) KCont = false) by (unfold is_hdr_kind in NH; apply orb_false_elim in NH; tauto).
+  rewrite KC. cbn [andb]. cbv zeta.
+  change (match ?pre with inl r => r | inr (c1, s) => _ end) with
+    (match pre with inl r => r | inr (c1, s) => fwork c1 s fr (sc_closing c) end).
+  assert (FW : forall c1 s, fwork c1 s fr (sc_closing c) = ftail c1 s fr (sc_closing c)).
+  { intros c1 s. unfold fwork. rewrite KH. reflexivity. }
+  destruct (if sf_sid fr <=? sc_lastID c then strms_search (sc_strms c) (sf_sid fr) else None) as [s|] eqn:Found.
+  { (* a stream of the table *)
+    rewrite FW. assert (SS : strms_search (sc_strms c) (sf_sid fr) = Some s) by (destruct (_ <=? _); [exact Found | discriminate]).
+    apply hmvs_ftail_other; [exact NH | eapply wk_found; exact SS | auto|].
+    intro K. destruct (PRE K) as [_ HF]. apply HF. apply strms_search_In in SS. tauto. }
+  destruct (fkind_eqb (sf_kind fr) KRst).
+  { destruct (_ && _)%bool; [apply hmvs_goaway_cont | constructor]. }
+  destruct (in_ring c (sf_sid fr)).
+  { destruct (sf_kind fr); try discriminate KH; try discriminate KC; try apply hmvs_goaway_cont; try (cbn [cont fst]; constructor).
+    destruct (match ring_find c (sf_sid fr) with Some b => b | None => false end); [|apply hmvs_goaway_cont].
+    cbn [cont fst]. apply hmvs_same, hsame_credit_conn_window. }
+  destruct (fkind_eqb (sf_kind fr) KPriority) eqn:KP.
+  { destruct (sf_dep fr =? sf_sid fr); cbn [cont fst]; [apply hmvs_same, hsame_write_reset | constructor]. }
+  rewrite !KH. cbn [andb].
+  destruct (sf_sid fr <? sc_lastID c); [apply hmvs_goaway_cont|].
+  (* any other frame on an unknown stream: the stream is made, the frame is refused, the loop ends *)
+  set (s := set_orig_started (new_stream (sf_sid fr) (sc_initWin c)) (sf_kind fr) (sc_now c)).
+  rewrite FW. unfold ftail, handle_frame.
+  assert (V : verify_state s fr = Some (EGoAway c_ProtocolError)).
+  { unfold verify_state. cbn [s set_orig_started new_stream st_state]. rewrite KH, KP. reflexivity. }
+  rewrite V. unfold ftail_rest. cbn [write_error].
+  replace (negb (c_ProtocolError =? c_NoError)) with true by reflexivity.
+  apply hmvs_one, hm_fatal.
+  - unfold brk, note, put. sc_cbn. sc_rw. reflexivity.
+  - unfold base, oext, brk, note, put. sc_cbn. sc_rw. repeat split; try reflexivity.
+    rewrite sc_out_write_goaway. sc_cbn. destruct (sc_wl_dead c); [exists [OExit 1 0]; reflexivity|].
+    destruct (sc_sl_done c); eexists [_; _]; reflexivity.
+  - reflexivity.
+  - right. unfold brk, note, put. sc_cbn. sc_rw. split; [apply sc_closing_write_goaway|].
+    intro W. rewrite gcount_cons. cbn [conn_err_out]. sc_cbn.
+    pose proof (gcount_write_goaway _ (upd_strms c (sc_strms c ++ [s])) (st_id s) c_ProtocolError W) as G. sc_cbn_in G. lia.
+  - intro W. unfold brk, note, put. sc_cbn. rewrite gcount_cons. cbn [conn_err_out].
+    pose proof (gcount_write_goaway _ (upd_strms c (sc_strms c ++ [s])) (st_id s) c_ProtocolError W) as G. sc_cbn_in G. lia.
+Qed.
+
 End Steps.
+
+Arguments wk {hstate}. Arguments inT {hstate}. Arguments answered {hstate}. Arguments no_open_block {hstate}.
+Arguments ftail_rest {hstate}. Arguments ftail {hstate}. Arguments fwork {hstate}.
